@@ -39,8 +39,141 @@ let cache_diff (impl : (expr * expr) list) (mc : (expr * expr) list) : string op
        | Some k -> Some (Printf.sprintf "the model has an entry for %s, the implementation has none" (Sexp.to_string (sexp_of_expr k)))
        | None -> None)
 
+
+(* ---- stream "containers": operation histories on the containers of meta.rs against Model.ExprMeta ----
+   (case ID (kind map|set) (ops OP..) (dense OBS..) (sparse OBS..) (dense-final ..) (sparse-final ..))
+   property oracle : no panic; the dense and the sparse container give the same answers (container irrelevance)
+   correspondence  : every observation and the final contents equal the extracted model's *)
+let a s = Sexp.Atom s
+let show_ov = function None -> a "none" | Some k -> a (dec_of_n k)
+let parse_ov = function Sexp.Atom "none" -> None | x -> Some (n_of_dec (Sexp.atom x))
+let kv (k, v) = Sexp.List [a (dec_of_n k); show_ov v]
+let by_key l = List.sort (fun (k1, _) (k2, _) -> compare (int_of_n k1) (int_of_n k2)) l
+let nat_len l = string_of_int (List.length l)
+let eq_ov = option_N_eqb
+
+type mstate = { d : n option list; s : (n * n option) list }
+
+let compact (vals : n option list) : Sexp.t list =
+  a (nat_len vals) :: List.map kv (List.filter (fun (_, v) -> v <> None) (dense_iter vals))
+
+(* one map operation on both models: new state, observation of the dense model, of the sparse model *)
+let map_step (st : mstate) (op : Sexp.t) : mstate * Sexp.t * Sexp.t =
+  match op with
+  | Sexp.List [Sexp.Atom "get"; k] ->
+      let k = n_of_dec (Sexp.atom k) in
+      (st, show_ov (dense_index None st.d k), show_ov (sparse_index None st.s k))
+  | Sexp.List [Sexp.Atom "set"; k; v] ->
+      let k = n_of_dec (Sexp.atom k) and v = parse_ov v in
+      ({ d = dense_set None st.d k v; s = sparse_set None st.s k v }, a "unit", a "unit")
+  | Sexp.List [Sexp.Atom "getmut"; k] ->
+      let k = n_of_dec (Sexp.atom k) in
+      let (d', vd) = dense_index_mut None st.d k and (s', vs) = sparse_index_mut None st.s k in
+      ({ d = d'; s = s' }, show_ov vd, show_ov vs)
+  | Sexp.List [Sexp.Atom "iter"] ->
+      let di = dense_iter st.d in
+      let ordered = List.for_all (fun x -> x) (List.mapi (fun i (k, _) -> int_of_n k = i) di) in
+      let od = Sexp.List (a "iter" :: a (if ordered then "ordered" else "unordered") :: a (nat_len di)
+                          :: List.map kv (List.filter (fun (_, v) -> v <> None) di)) in
+      let si = sparse_iter st.s in
+      let os = Sexp.List (a "iter" :: a "unordered" :: a (nat_len si) :: List.map kv (by_key si)) in
+      (st, od, os)
+  | Sexp.List [Sexp.Atom "ndk"] ->
+      let kd = dense_non_default_value_keys eq_ov None st.d in
+      let ks = List.sort (fun x y -> compare (int_of_n x) (int_of_n y)) (sparse_non_default_value_keys eq_ov None st.s) in
+      (st, Sexp.List (a "ndk" :: List.map (fun k -> a (dec_of_n k)) kd), Sexp.List (a "ndk" :: List.map (fun k -> a (dec_of_n k)) ks))
+  | Sexp.List [Sexp.Atom "intovec"] ->
+      (st, Sexp.List (a "vec" :: compact (dense_into_vec st.d)), a "unit")
+  | Sexp.List [Sexp.Atom ("gfp" | "gfpdiv"); k] ->
+      let k = n_of_dec (Sexp.atom k) in
+      let (d', od) = match dense_get_fixed_point st.d k with
+        | GfpSome (m, v) -> (m, Sexp.List [a "some"; a (dec_of_n v)])
+        | GfpNone m -> (m, a "none")
+        | GfpFuel -> (st.d, a "diverges") in
+      let (s', os) = match sparse_get_fixed_point st.s k with
+        | GfpSome (m, v) -> (m, Sexp.List [a "some"; a (dec_of_n v)])
+        | GfpNone m -> (m, a "none")
+        | GfpFuel -> (st.s, a "diverges") in
+      ({ d = d'; s = s' }, od, os)
+  | x -> raise (Sexp.Parse_error ("bad map op " ^ Sexp.to_string x))
+
+let set_step ((d, s) : n list * n list) (op : Sexp.t) : (n list * n list) * Sexp.t * Sexp.t =
+  let b x = a (if x then "true" else "false") in
+  match op with
+  | Sexp.List [Sexp.Atom "contains"; k] ->
+      let k = n_of_dec (Sexp.atom k) in ((d, s), b (dense_bits_contains d k), b (sparse_bits_contains s k))
+  | Sexp.List [Sexp.Atom "insert"; k] ->
+      let k = n_of_dec (Sexp.atom k) in
+      let (d', rd) = dense_bits_insert d k and (s', rs) = sparse_bits_insert s k in ((d', s'), b rd, b rs)
+  | Sexp.List [Sexp.Atom "remove"; k] ->
+      let k = n_of_dec (Sexp.atom k) in
+      let (d', rd) = dense_bits_remove d k and (s', rs) = sparse_bits_remove s k in ((d', s'), b rd, b rs)
+  | x -> raise (Sexp.Parse_error ("bad set op " ^ Sexp.to_string x))
+
+let is_panic = function Sexp.List (Sexp.Atom "panic" :: _) -> true | _ -> false
+
+(* observations that must not depend on the container: everything except the shape of iter / into_vec *)
+let container_free (op : Sexp.t) = match op with
+  | Sexp.List (Sexp.Atom ("iter" | "intovec") :: _) -> false
+  | _ -> true
+
+let handle_containers id kind fs =
+  let ops = Sexp.field "ops" fs in
+  let impl_d = Sexp.field "dense" fs and impl_s = Sexp.field "sparse" fs in
+  let panics = List.filter is_panic (impl_d @ impl_s) in
+  if panics <> [] then
+    Registry.result ~id ~status:"fail" ~key:"container-panic"
+      ~detail:("a container operation panics: " ^ Sexp.to_string (List.hd panics)) ()
+  else if List.length impl_d <> List.length ops || List.length impl_s <> List.length ops then
+    Registry.result ~id ~status:"diff" ~key:"containers" ~detail:"observation count differs from operation count" ()
+  else begin
+    (* oracle: same answers from both containers *)
+    let rec first_dep i ops ds ss = match ops, ds, ss with
+      | op :: ro, d :: rd, s :: rs ->
+          if container_free op && d <> s then
+            Some (Printf.sprintf "operation %d %s: dense container answers %s, sparse container answers %s" i (Sexp.to_string op) (Sexp.to_string d) (Sexp.to_string s))
+          else first_dep (i + 1) ro rd rs
+      | _ -> None in
+    match first_dep 0 ops impl_d impl_s with
+    | Some d -> Registry.result ~id ~status:"fail" ~key:"container-dependent" ~detail:d ()
+    | None ->
+        let mismatch = ref None in
+        let note i op which impl model =
+          if !mismatch = None && impl <> model then
+            mismatch := Some (Printf.sprintf "operation %d %s on the %s container: implementation %s, model %s" i (Sexp.to_string op) which (Sexp.to_string impl) (Sexp.to_string model)) in
+        if kind = "map" then begin
+          let st = ref { d = dense_empty; s = sparse_empty } in
+          List.iteri (fun i op ->
+              let (st', od, os) = map_step !st op in
+              st := st';
+              note i op "dense" (List.nth impl_d i) od;
+              note i op "sparse" (List.nth impl_s i) os) ops;
+          let fin_d = Sexp.List (Sexp.List [a "len"; a (nat_len !st.d)] :: List.map kv (List.filter (fun (_, v) -> v <> None) (dense_iter !st.d))) in
+          let fin_s = Sexp.List (List.map kv (by_key (sparse_iter !st.s))) in
+          note (-1) (a "final") "dense" (Sexp.List (Sexp.field "dense-final" fs)) fin_d;
+          note (-1) (a "final") "sparse" (Sexp.List (Sexp.field "sparse-final" fs)) fin_s
+        end else begin
+          let st = ref (dense_bits_empty, sparse_bits_empty) in
+          List.iteri (fun i op ->
+              let (st', od, os) = set_step !st op in
+              st := st';
+              note i op "dense" (List.nth impl_d i) od;
+              note i op "sparse" (List.nth impl_s i) os) ops;
+          let (d, s) = !st in
+          note (-1) (a "final") "dense" (Sexp.List (Sexp.field "dense-final" fs)) (Sexp.List (List.map (fun w -> a (dec_of_n w)) d));
+          note (-1) (a "final") "sparse" (Sexp.List (Sexp.field "sparse-final" fs))
+            (Sexp.List (List.map (fun w -> a (dec_of_n w)) (List.sort (fun x y -> compare (int_of_n x) (int_of_n y)) s)))
+        end;
+        match !mismatch with
+        | Some d -> Registry.result ~id ~status:"diff" ~key:"containers" ~detail:d ()
+        | None -> Registry.result ~id ~status:"ok" ~key:("containers-" ^ kind) ()
+  end
+
 let handle (x : Sexp.t) : string =
   let id, fs = case_fields x in
+  match Sexp.field_opt "kind" fs with
+  | Some [Sexp.Atom kind] -> handle_containers id kind fs
+  | _ ->
   let timeout = match Sexp.field_opt "timeout" fs with Some [Sexp.Atom "yes"] -> true | _ -> false in
   if timeout then Registry.result ~id ~status:"fail" ~key:"timeout" ~detail:"simplification did not terminate within the watchdog" ()
   else begin
@@ -77,6 +210,18 @@ let handle (x : Sexp.t) : string =
               match wrong with
               | Some (i, r) -> Some (Printf.sprintf "%s history: member %d: cached model gives %s, implementation %s" name i (show_sres r) (List.nth shared_txt i))
               | None ->
+                  (* the same history through the driver model over the CONTAINER model of this instance
+                     (Model.SimplifyCacheRefs over Model.ExprMeta): same results, same cache entries as the tree-keyed model *)
+                  let es = List.map (fun i -> List.nth exprs i) ord in
+                  let (rrs, entry) =
+                    if name = "dense" then (let ((c, m), rs) = simplify_batch_dense big_fuel es in (rs, cache_entry dense_ops c m))
+                    else (let ((c, m), rs) = simplify_batch_sparse big_fuel es in (rs, cache_entry sparse_ops c m)) in
+                  if List.map show_sres rrs <> List.map (fun (_, r) -> show_sres r) rs then
+                    Some (name ^ " history: the container-level driver model and the tree-keyed driver model give different results")
+                  else match List.find_opt (fun (k, _) -> match entry k, lookup mc k with
+                                                          | Some v, Some v' -> not (expr_eqb v v') | _, _ -> true) mc with
+                  | Some (k, _) -> Some (name ^ " history: container-level driver model: different cache entry for " ^ Sexp.to_string (sexp_of_expr k))
+                  | None ->
                   (match cache_entries cache_name fs with
                    | None -> None
                    | Some impl -> (match cache_diff impl mc with Some d -> Some (name ^ " cache: " ^ d) | None -> None)) in
